@@ -340,8 +340,12 @@ def run_lncdf(cell, g, fails, feats):
             i = int(err.argmax())
             if float(err[i]) > 1e-4:
                 zi = float(zf[i])
+                from scipy.special import log_ndtr
+                verr = float(out.reshape(-1)[i]) - float(log_ndtr(zi))
                 fails.add("lncdf-fd", f"gradient != derivative of the computed forward: rel err={float(err[i]):.3e}",
-                          f"z={zi!r}: got {float(diag[i]):.9e} central difference {float(fd[i]):.9e}")
+                          f"z={zi!r}: got {float(diag[i]):.9e} central difference of forward {float(fd[i]):.9e}; true phi/Phi {float(want[i]):.9e} "
+                          f"(delivered gradient is the closer one: it is phi/Phi evaluated with the approximant's value); forward value error "
+                          f"vs log Phi here {verr:.3e}")
                 fails[-1]["features"] = ln_feats(feats, zi)
             # generic / expanded upstream gradients
             G = util.randn(g, *z0.shape) if z0.dim() else util.randn(g, 1)[0]
